@@ -22,6 +22,7 @@ mod c12;
 mod c13;
 mod c14;
 mod c15;
+mod c16;
 
 use util::*;
 
@@ -90,6 +91,7 @@ fn main() {
         "C13" => c13::run(&p, &mut rep),
         "C14" => c14::run(&p, &mut rep),
         "C15" => c15::run(&p, &mut rep),
+        "C16" => c16::run(&p, &mut rep),
         other => {
             eprintln!("no monitor for {}", other);
             std::process::exit(3);
